@@ -31,8 +31,6 @@ Notation m_step := (m_step L F leqb lleb fkey).
 Notation s_step := (s_step L F leqb lleb fkey).
 Notation m_run := (m_run L F leqb lleb fkey).
 Notation s_run := (s_run L F leqb lleb fkey).
-Notation s_dom := (s_dom L F leqb lleb fkey).
-Notation s_dom_op := (s_dom_op L F leqb).
 
 Lemma combine_fst {A B} (a : list A) (b : list B) : length b = length a -> map fst (combine a b) = a.
 Proof. revert b. induction a as [|x r IH]; intros [|y s] H; cbn in *; try lia; try discriminate; [reflexivity|]. f_equal. apply IH. lia. Qed.
@@ -71,25 +69,21 @@ Proof.
       split; [discriminate | reflexivity].
 Qed.
 
-Lemma rel_file st m s f : Rel st m s -> negb (option_eqb Z.eqb f (st_recorded L F st)) = true -> store_ok st ->
+(* a file event changes nothing in the Bus; since the LRU dict never holds a label that is not loaded (repaired, commit
+   dee625c), the relation survives the file coming back as well *)
+Lemma rel_file st m s f : Rel st m s ->
   Rel (mk_store L F (st_content L F st) (st_recorded L F st) f) m s.
-Proof.
-  intros R G [r Er].
-  assert (Stale : m_coherent (mk_store L F (st_content L F st) (st_recorded L F st) f) = false).
-  { rewrite (coherent_agree L F _ r) by exact Er. unfold BusSpec.s_coherent. cbn. rewrite Er in *.
-    destruct f as [t|]; [|reflexivity]. cbn in G. apply negb_true_iff in G. exact G. }
-  destruct R as [R1 R2 R3 R4 R5 R6 R7 R8 R9 R10 R11]. constructor; auto.
-  intros k E. destruct (R11 k E) as (N & Fl & _). split; [exact N|]. split; [exact Fl|]. rewrite Stale. discriminate.
-Qed.
+Proof. intros [R1 R2 R3 R4 R5 R6 R7 R8 R9 R10 R11]. constructor; auto. Qed.
 
 (* one operation *)
 Theorem step_sim st m s o :
-  Rel st m s -> store_ok st -> mode_ok st (mb_mp L F m) -> s_dom_op st s o = true ->
+  Rel st m s -> store_ok st ->
   let '(x, st1, m', _) := m_step st m o in
   let '(y, st2, s') := s_step st s o in
   x = y /\ st1 = st2 /\ Rel st1 m' s' /\ store_ok st1 /\ mb_mp L F m' = mb_mp L F m /\ st_content L F st1 = st_content L F st.
 Proof.
-  intros R Sok Mok Dom.
+  intros R Sok. pose proof (mode_ok_always L F leqb st (mb_mp L F m)) as Mok.
+  destruct repairs_in_place as (_ & _ & Fget & Fiter & Fitems & Fsort).
   pose proof (R_labels _ _ _ _ _ _ R) as El. pose proof (R_nodup _ _ _ _ _ _ R) as Nl. pose proof (R_len _ _ _ _ _ _ R) as Hlen.
   destruct o as [k into| | | | |l| | |k into|ls into|asc into|asc into|f]; cbn [Bus.m_step BusSpec.s_step].
   - (* OSel *)
@@ -109,74 +103,28 @@ Proof.
     destruct ok; [|auto 10]. rewrite (H2 eq_refl). auto 10.
   - (* OKeys *) rewrite El. auto 10.
   - (* OStatus *) rewrite <- (rel_flags L F leqb leqb_spec st m s R). auto 10.
-  - (* OGet: as found only where it cannot meet a placeholder; through _extract_loc everywhere *)
-    cbn [BusSpec.s_dom_op] in Dom. rewrite <- El in *.
-    destruct (mem l (mb_labels L F m)) eqn:Q; cbn [negb orb] in Dom.
+  - (* OGet: through _extract_loc (repaired, commit 5b16856) -- the ordinary selection *)
+    rewrite <- El.
+    destruct (mem l (mb_labels L F m)) eqn:Q.
     + apply (mem_In L leqb leqb_spec) in Q.
-      destruct (find_idx_In L leqb leqb_spec l _ Q) as [i Fi]. rewrite Fi.
-      destruct get_loads.
-      * pose proof (select_sim L F leqb leqb_spec st m s (KLabel L l) false R Sok Mok) as H.
-        destruct (m_select L F leqb st m (KLabel L l) false) as [[x m'] lg].
-        destruct (s_select L F leqb st s (KLabel L l) false) as [y s'].
-        destruct H as (H1 & H2 & H3). auto 10.
-      * apply andb_true_iff in Dom as [Dc Dm].
-        assert (Emp : mb_mp L F m = None) by (rewrite (R_mp _ _ _ _ _ _ R); destruct (sb_mp L s); [discriminate | reflexivity]).
-        (* the specification loads through the ordinary selection; the label is held, so nothing changes but the order *)
-        pose proof (select_sim L F leqb leqb_spec st m s (KLabel L l) false R Sok Mok) as H.
-        unfold m_select, s_select in H. rewrite <- El in H. cbn [BusSpec.resolve] in H. rewrite Fi in H.
-        unfold s_select. rewrite <- El. cbn [BusSpec.resolve]. rewrite Fi.
-        unfold m_extract, Bus.m_update in H. rewrite Emp in H. cbn [is_some negb andb] in H.
-        assert (Eld : nth i (mb_loaded L F m) false = true).
-        { rewrite <- (isld_nth L leqb leqb_spec _ _ i l Nl (find_idx_Some L leqb leqb_spec l _ i Fi)).
-          apply (R_cache _ _ _ _ _ _ R), (mem_In L leqb leqb_spec), Dc. }
-        assert (Eload : (if mb_loaded_all L F m then false else negb (forallb (fun p => nth p (mb_loaded L F m) false) [i])) = false).
-        { destruct (mb_loaded_all L F m); [reflexivity|]. cbn. rewrite Eld. reflexivity. }
-        rewrite Eload in H. cbn [negb andb] in H.
-        destruct (s_access_all L leqb (s_coherent st) (sb_mp L s) (sb_cache L s) (labels_at (mb_labels L F m) [i])) as [ok c].
-        destruct ok; cbn [negb] in *.
-        -- destruct H as (H1 & H2 & H3). unfold Bus.slots_at in H1. cbn in H1.
-           destruct (nth_error (mb_slots L F m) i) as [sl|] eqn:E; cbn in H1 |- *; auto 10.
-        -- destruct H as (H1 & _). discriminate.
+      destruct (find_idx_In L leqb leqb_spec l _ Q) as [i Fi]. rewrite Fi, Fget.
+      pose proof (select_sim L F leqb leqb_spec st m s (KLabel L l) false R Sok Mok) as H.
+      destruct (m_select L F leqb st m (KLabel L l) false) as [[x m'] lg].
+      destruct (s_select L F leqb st s (KLabel L l) false) as [y s'].
+      destruct H as (H1 & H2 & H3). auto 10.
     + apply (mem_false L leqb leqb_spec) in Q. rewrite (proj2 (find_idx_None L leqb leqb_spec l _) Q). auto 10.
-  - (* OIterElem: as found only when everything is held and no LRU order exists; through self.values everywhere *)
-    destruct iter_element_loads.
-    { pose proof (values_sim L F leqb leqb_spec st m s R Sok Mok) as H.
-      destruct (m_values L F leqb st m) as [[[e vs] m'] lg]. destruct (s_all L F leqb st s) as [ok s'].
-      destruct H as (H1 & H2 & H3 & H4 & H5 & _). subst e. rewrite <- El.
-      destruct ok; [|auto 10]. rewrite (H2 eq_refl). auto 10. }
-    cbn [BusSpec.s_dom_op] in Dom. apply andb_true_iff in Dom as [Dm Da].
-    assert (Emp : mb_mp L F m = None) by (rewrite (R_mp _ _ _ _ _ _ R); destruct (sb_mp L s); [discriminate | reflexivity]).
+  - (* OIterElem: through self.values (repaired, commit 949c364) *)
+    rewrite Fiter.
     pose proof (values_sim L F leqb leqb_spec st m s R Sok Mok) as H.
-    assert (Hall : forall x, In x (mb_labels L F m) -> In x (sb_cache L s)).
-    { intros x I. rewrite forallb_forall in Da. apply (mem_In L leqb leqb_spec), Da. rewrite <- El. exact I. }
-    assert (La : mb_loaded_all L F m = true).
-    { rewrite (R_all _ _ _ _ _ _ R). apply all_true_spec. intros i Hi.
-      assert (Hi' : (i < length (mb_labels L F m))%nat) by (rewrite (R_loaded _ _ _ _ _ _ R), map_length in Hi; lia).
-      destruct (nth_error (mb_labels L F m) i) as [x|] eqn:E; [|apply nth_error_None in E; lia].
-      rewrite <- (isld_nth L leqb leqb_spec _ _ i x Nl E). apply (R_cache _ _ _ _ _ _ R), Hall. eapply nth_error_In, E. }
-    unfold m_values in H. rewrite Emp, La in H.
-    destruct (s_all L F leqb st s) as [ok s']. destruct H as (H1 & H2 & H3 & H4 & H5 & _).
-    destruct ok; [|discriminate]. rewrite (H2 eq_refl), El. auto 10.
-  - (* OIterItems *)
-    destruct iter_element_items_loads.
-    { pose proof (values_sim L F leqb leqb_spec st m s R Sok Mok) as H.
-      destruct (m_values L F leqb st m) as [[[e vs] m'] lg]. destruct (s_all L F leqb st s) as [ok s'].
-      destruct H as (H1 & H2 & H3 & H4 & H5 & _). subst e. rewrite <- El.
-      destruct ok; [|auto 10]. rewrite (H2 eq_refl).
-      split; [|auto 10]. f_equal. clear. induction (mb_labels L F m) as [|x r IH]; cbn; [reflexivity | f_equal; exact IH]. }
-    cbn [BusSpec.s_dom_op] in Dom. apply andb_true_iff in Dom as [Dm Da].
-    assert (Emp : mb_mp L F m = None) by (rewrite (R_mp _ _ _ _ _ _ R); destruct (sb_mp L s); [discriminate | reflexivity]).
+    destruct (m_values L F leqb st m) as [[[e vs] m'] lg]. destruct (s_all L F leqb st s) as [ok s'].
+    destruct H as (H1 & H2 & H3 & H4 & H5 & _). subst e. rewrite <- El.
+    destruct ok; [|auto 10]. rewrite (H2 eq_refl). auto 10.
+  - (* OIterItems: through self.items() (repaired, commit 949c364) *)
+    rewrite Fitems.
     pose proof (values_sim L F leqb leqb_spec st m s R Sok Mok) as H.
-    assert (Hall : forall x, In x (mb_labels L F m) -> In x (sb_cache L s)).
-    { intros x I. rewrite forallb_forall in Da. apply (mem_In L leqb leqb_spec), Da. rewrite <- El. exact I. }
-    assert (La : mb_loaded_all L F m = true).
-    { rewrite (R_all _ _ _ _ _ _ R). apply all_true_spec. intros i Hi.
-      assert (Hi' : (i < length (mb_labels L F m))%nat) by (rewrite (R_loaded _ _ _ _ _ _ R), map_length in Hi; lia).
-      destruct (nth_error (mb_labels L F m) i) as [x|] eqn:E; [|apply nth_error_None in E; lia].
-      rewrite <- (isld_nth L leqb leqb_spec _ _ i x Nl E). apply (R_cache _ _ _ _ _ _ R), Hall. eapply nth_error_In, E. }
-    unfold m_values in H. rewrite Emp, La in H.
-    destruct (s_all L F leqb st s) as [ok s']. destruct H as (H1 & H2 & H3 & H4 & H5 & _).
-    destruct ok; [|discriminate]. rewrite (H2 eq_refl), <- El.
+    destruct (m_values L F leqb st m) as [[[e vs] m'] lg]. destruct (s_all L F leqb st s) as [ok s'].
+    destruct H as (H1 & H2 & H3 & H4 & H5 & _). subst e. rewrite <- El.
+    destruct ok; [|auto 10]. rewrite (H2 eq_refl).
     split; [|auto 10]. f_equal. clear. induction (mb_labels L F m) as [|x r IH]; cbn; [reflexivity | f_equal; exact IH].
   - (* ODrop *)
     rewrite <- El. destruct (resolve (mb_labels L F m) k) as [[single ps]|e] eqn:Res; [|auto 10].
@@ -223,26 +171,12 @@ Proof.
     { reflexivity. }
     destruct (m_bus_result L F m ls' _ into) as [x m']. destruct (s_bus_result L F leqb s (s_derive s ls') into) as [y s'].
     cbn [fst snd] in *. auto 10.
-  - (* OSortValues: only when max_persist is absent or can hold the whole Bus *)
-    cbn [BusSpec.s_dom_op] in Dom.
+  - (* OSortValues: the Bus's own Series reindexed in the sorted order (repaired, commit 615b06f): any max_persist *)
     pose proof (values_sim L F leqb leqb_spec st m s R Sok Mok) as H.
     destruct (m_values L F leqb st m) as [[[e vs] m1] lg]. destruct (s_all L F leqb st s) as [ok s1] eqn:Eall.
-    destruct H as (H1 & H2 & R1 & El1 & Emp1 & H6). subst e.
+    destruct H as (H1 & H2 & R1 & El1 & Emp1 & _). subst e.
     destruct ok; cbn [negb]; [|auto 10].
-    specialize (H2 eq_refl).
-    assert (H6' : vs = mb_slots L F m1).
-    { destruct (sb_mp L s) as [k|] eqn:Esmp.
-      - (* every label is held afterwards, so the array handed to the sort is the Series the Bus holds *)
-        rewrite H2, <- El1. symmetry. apply (rel_all_loaded L F leqb leqb_spec st m1 s1 R1).
-        unfold s_all in Eall. rewrite Esmp in Eall.
-        destruct (s_access_all L leqb (s_coherent st) (Some k) (sb_cache L s) (sb_labels L s)) as [ok' c'] eqn:Ea.
-        injection Eall as -> <-. cbn [sb_cache s_with_cache].
-        destruct (rel_sbus_ok L F leqb leqb_spec st m s R) as (Nls & (Ncs & _) & Incs).
-        intros l Il. rewrite El1, El in Il.
-        apply (access_all_small_In L leqb leqb_spec (s_coherent st) k (sb_labels L s) (sb_labels L s) Nls (incl_refl _)
-                 ltac:(apply Z.leb_le, Dom) (sb_cache L s) c' Ncs Incs Ea). left. exact Il.
-      - apply H6; [rewrite (R_mp _ _ _ _ _ _ R); exact Esmp | reflexivity]. }
-    clear H6. rename H6' into H6.
+    specialize (H2 eq_refl). rewrite Fsort.
     rewrite <- El.
     set (labels := mb_labels L F m) in *.
     set (kvM := map (fun x : L * option F => (x, match snd x with Some f => fkey f | None => 0 end)) (combine labels vs)).
@@ -253,21 +187,10 @@ Proof.
     assert (Hsort : isort (fun (a0 b : L * Z) => snd a0 <=? snd b) (map h kvM)
                     = map h (isort (fun (a0 b : (L * option F) * Z) => snd a0 <=? snd b) kvM))
       by (apply isort_map; reflexivity).
-    assert (Efst : map fst (sort_by_key asc kvM) = sort_by_key asc (map (fun l => (l, match eager st l with Some f => fkey f | None => 0 end)) labels)).
+    assert (Efst : map fst (sort_by_key asc kvM)
+                   = sort_by_key asc (map (fun l => (l, match eager st l with Some f => fkey f | None => 0 end)) labels)).
     { unfold sort_by_key. rewrite EkvS, Hsort.
       destruct asc; [|rewrite <- map_rev]; rewrite !map_map; reflexivity. }
-    assert (Fs : Forall (fun p => snd p = slot_of (mb_labels L F m1) (mb_slots L F m1) (fst p)) (sort_by_key asc kvM)).
-    { rewrite El1, <- H6.
-      assert (Hvs : length vs = length labels) by (rewrite H2, map_length; reflexivity).
-      pose proof (combine_slot_of labels vs Nl Hvs) as Hc.
-      assert (Forall (fun p : (L * option F) * Z => snd (fst p) = slot_of labels vs (fst (fst p))) kvM) as F0.
-      { unfold kvM. apply Forall_forall. intros p I. apply in_map_iff in I as (q & <- & Iq). cbn.
-        rewrite Forall_forall in Hc. apply (Hc q Iq). }
-      unfold sort_by_key. apply Forall_forall. intros p I. apply in_map_iff in I as (q & <- & Iq).
-      assert (Forall (fun p0 : (L * option F) * Z => snd (fst p0) = slot_of labels vs (fst (fst p0)))
-                (if asc then isort (fun a b => snd a <=? snd b) kvM else rev (isort (fun a b => snd a <=? snd b) kvM))) as F1.
-      { destruct asc; [apply isort_Forall, F0 | apply Forall_rev', isort_Forall, F0]. }
-      rewrite Forall_forall in F1. apply (F1 q Iq). }
     rewrite Efst.
     remember (sort_by_key asc (map (fun l => (l, match eager st l with Some f => fkey f | None => 0 end)) labels)) as ls' eqn:Els'.
     assert (Hperm : Permutation ls' labels).
@@ -276,39 +199,27 @@ Proof.
     assert (Incl : incl ls' (mb_labels L F m1)) by (intros x I; rewrite El1; eapply Permutation_in; eassumption).
     destruct (bus_result_sim L F leqb leqb_spec st m1 s1 ls' (map (slot_of (mb_labels L F m1) (mb_slots L F m1)) ls') into R1 Nls Incl eq_refl)
       as (B1 & B2 & B3).
-    destruct sort_values_from_own_series.
-    + (* the Bus's own Series reindexed in the sorted order *)
-      destruct (find_all_spec ls' (mb_labels L F m1) (mb_slots L F m1) (R_nodup _ _ _ _ _ _ R1) (R_len _ _ _ _ _ _ R1)) as [Fa1 _].
-      destruct Fa1 as (ps & E1 & E2).
-      { apply forallb_forall. intros x I. apply (mem_In L leqb leqb_spec), Incl, I. }
-      rewrite E1, E2.
-      destruct (m_bus_result L F m1 ls' _ into) as [x m']. unfold s_bus_result in *. cbn [fst snd] in *.
-      split; [exact B1|]. split; [reflexivity|]. split; [exact B2|]. split; [exact Sok|]. split; [congruence | reflexivity].
-    + (* as found: the sorted Series of Frames; when nothing had to be evicted it holds the same slots *)
-      rewrite (map_snd_of_Forall _ _ Fs), Efst.
-      destruct (m_bus_result L F m1 ls' _ into) as [x m']. unfold s_bus_result in *. cbn [fst snd] in *.
-      split; [exact B1|]. split; [reflexivity|]. split; [exact B2|]. split; [exact Sok|]. split; [congruence | reflexivity].
-  - (* OFile: the file is never put back *)
-    cbn [BusSpec.s_dom_op] in Dom.
+    destruct (find_all_spec ls' (mb_labels L F m1) (mb_slots L F m1) (R_nodup _ _ _ _ _ _ R1) (R_len _ _ _ _ _ _ R1)) as [Fa1 _].
+    destruct Fa1 as (ps & E1 & E2).
+    { apply forallb_forall. intros x I. apply (mem_In L leqb leqb_spec), Incl, I. }
+    rewrite E1, E2.
+    destruct (m_bus_result L F m1 ls' _ into) as [x m']. unfold s_bus_result in *. cbn [fst snd] in *.
+    split; [exact B1|]. split; [reflexivity|]. split; [exact B2|]. split; [exact Sok|]. split; [congruence | reflexivity].
+  - (* OFile: touched, rewritten, removed -- or put back *)
     split; [reflexivity|]. split; [reflexivity|]. split; [apply rel_file; assumption|].
     split; [destruct Sok as [r Er]; exists r; exact Er | auto].
 Qed.
 
-Lemma mode_ok_content (st st' : store) mp : st_content L F st' = st_content L F st -> mode_ok st mp -> mode_ok st' mp.
-Proof. intros E [H|H]; [left; exact H | right]. unfold uniform_cfg in *. rewrite E. exact H. Qed.
-
 (* every history *)
 Theorem run_sim ops : forall st m s,
-  Rel st m s -> store_ok st -> mode_ok st (mb_mp L F m) -> s_dom st s ops = true ->
-  m_run st m ops = s_run st s ops.
+  Rel st m s -> store_ok st -> m_run st m ops = s_run st s ops.
 Proof.
-  induction ops as [|o r IH]; intros st m s R Sok Mok Dom; cbn [Bus.m_run BusSpec.s_run]; [reflexivity|].
-  cbn [BusSpec.s_dom] in Dom. apply andb_true_iff in Dom as [D1 D2].
-  pose proof (step_sim st m s o R Sok Mok D1) as H.
+  induction ops as [|o r IH]; intros st m s R Sok; cbn [Bus.m_run BusSpec.s_run]; [reflexivity|].
+  pose proof (step_sim st m s o R Sok) as H.
   destruct (m_step st m o) as [[[x st1] m'] lg]. destruct (s_step st s o) as [[y st2] s'].
   destruct H as (-> & <- & R' & Sok' & Emp & Ec).
   rewrite (rel_flags L F leqb leqb_spec st1 m' s' R'). f_equal.
-  apply IH; [exact R' | exact Sok' | rewrite Emp; eapply mode_ok_content; eassumption | exact D2].
+  apply IH; assumption.
 Qed.
 
 Lemma assoc_In_fst {B} l (kv : list (L * B)) : In l (map fst kv) -> exists v, BusSpec.assoc L leqb l kv = Some v.
@@ -353,19 +264,17 @@ Proof.
   - intros l I. destruct (assoc_In_fst l _ I) as [[f fd] E]. eauto.
   - split; [constructor|]. destruct mp as [k|]; [|exact I]. specialize (K k eq_refl). cbn. lia.
   - intro l. rewrite Hisld. split; [contradiction | discriminate].
-  - intros k E. rewrite E, loaded_labels_nones. split; [constructor|]. split; [reflexivity | intros _ l []].
+  - intros k E. rewrite E, loaded_labels_nones. split; [constructor|]. split; [reflexivity | intros l []].
 Qed.
 
-(* REFINEMENT over every history of the domain *)
+(* REFINEMENT over EVERY history *)
 Theorem bus_refines_spec (st : store) mp ops r :
   NoDup (map fst (st_content L F st)) -> st_recorded L F st = Some r ->
   (forall k, mp = Some k -> 1 <= k) ->
-  mode_ok st mp ->
-  s_dom st (s_open L F st mp) ops = true ->
   exists m0, m_open L F st mp = Ok m0 /\ m_run st m0 ops = s_run st (s_open L F st mp) ops.
 Proof.
-  intros N Er K Mok Dom. destruct (open_rel st mp N K) as (m0 & E & R & Emp).
-  exists m0. split; [exact E|]. apply run_sim; [exact R | exists r; exact Er | rewrite Emp; exact Mok | exact Dom].
+  intros N Er K. destruct (open_rel st mp N K) as (m0 & E & R & Emp).
+  exists m0. split; [exact E|]. apply run_sim; [exact R | exists r; exact Er].
 Qed.
 
 End Refine.
